@@ -413,3 +413,275 @@ Lemma root_die_not_null codes e off d t : node_ok codes e t -> is_null (root_die
 Proof.
   intros [(_ & Ht & _) _]. cbn [t_abbrev ab_tag] in Ht. unfold is_null, root_die. cbn [d_tag]. lia.
 Qed.
+
+(* ------------------------------------------------------------------ *)
+(** * The entry stream as a list of events *)
+
+Record xev : Type := mkX { x_bytes : list byte; x_die : die; x_post : Z }.
+
+Definition xbytes (l : list xev) : list byte := concat (map x_bytes l).
+
+(* reading an event's bytes, at its offset and depth, reports its entry and moves to x_post *)
+Definition ev_ok (dbg : bool) (e : enc) (tbl : abbrevs) (x : xev) : Prop :=
+  (exists b r, x_bytes x = b :: r) /\
+  (d_depth (x_die x) - 1 <= x_post x <= d_depth (x_die x) + 1)%Z /\
+  forall rest E,
+    E = d_offset (x_die x) + nlen (x_bytes x) + nlen rest -> E < two64 ->
+    depth_ok (d_depth (x_die x)) (x_bytes x ++ rest) ->
+    read_entry dbg e tbl (mkRaw (x_bytes x ++ rest) E (d_depth (x_die x))) =
+    Ok (negb (is_null (x_die x)), x_die x, mkRaw rest E (x_post x)).
+
+Definition null_ev (off : N) (d : Z) : xev := mkX [x00] (null_at off d) (d - 1).
+
+Lemma null_ev_ok dbg e tbl off d : ev_ok dbg e tbl (null_ev off d).
+Proof.
+  split; [cbn; eauto|]. split; [cbn [null_ev x_die x_post null_at d_depth]; lia|].
+  intros rest E HE HE64 Hd. cbn [null_ev x_bytes x_die x_post null_at d_depth d_offset app] in *.
+  rewrite read_null; [|rewrite nlen_cons in *; change (nlen [x00]) with 1 in HE; lia|exact Hd].
+  replace (E - nlen (x00 :: rest)) with off by (rewrite nlen_cons; change (nlen [x00]) with 1 in HE; lia).
+  reflexivity.
+Qed.
+
+Definition head_ev (codes : coding) (bigend : bool) (d : Z) (off : N) (t : tree) : xev :=
+  mkX (head_bytes codes bigend off t) (root_die codes off d t) (post_depth d t).
+
+Lemma head_ev_ok dbg e tbl codes d off t :
+  addr_size_ok e -> covered tbl codes t -> node_ok codes e t -> node_fits codes (off, t) ->
+  ev_ok dbg e tbl (head_ev codes (be e) d off t).
+Proof.
+  intros He Hc Hok Hfit. split; [apply head_bytes_cons|].
+  split; [cbn [head_ev x_die x_post root_die d_depth]; unfold post_depth; destruct (has_children t); lia|].
+  intros rest E HE HE64 Hd. cbn [head_ev x_bytes x_die x_post] in *.
+  rewrite (root_die_not_null codes e off d t Hok). cbn [negb].
+  cbn [root_die d_depth d_offset] in *. apply read_head; assumption.
+Qed.
+
+Fixpoint evs (codes : coding) (bigend : bool) (d : Z) (off : N) (t : tree) : list xev :=
+  match t with
+  | Node tag flag items kids =>
+      head_ev codes bigend d off t ::
+      (if has_children t
+       then on_list (evs codes bigend (d + 1)) (tree_size codes) (kids_off codes off t) kids ++
+            [null_ev (off + tree_size codes t - 1) (d + 1)]
+       else [])
+  end.
+
+Lemma evs_unfold codes bigend d off t :
+  evs codes bigend d off t =
+  head_ev codes bigend d off t ::
+  (if has_children t
+   then on_list (evs codes bigend (d + 1)) (tree_size codes) (kids_off codes off t) (t_kids t) ++
+        [null_ev (off + tree_size codes t - 1) (d + 1)]
+   else []).
+Proof. destruct t. reflexivity. Qed.
+
+Definition evs_list (codes : coding) (bigend : bool) (d : Z) (off : N) (l : list tree) : list xev :=
+  on_list (evs codes bigend d) (tree_size codes) off l.
+
+Lemma xbytes_app a b : xbytes (a ++ b) = xbytes a ++ xbytes b.
+Proof. unfold xbytes. rewrite map_app, concat_app. reflexivity. Qed.
+
+(* the events spell the encoding *)
+Lemma evs_list_bytes_of codes bigend d : forall l off,
+  Forall (fun t => forall d o, xbytes (evs codes bigend d o t) = enc_tree codes bigend o t) l ->
+  xbytes (evs_list codes bigend d off l) = on_list (enc_tree codes bigend) (tree_size codes) off l.
+Proof.
+  unfold evs_list. induction l as [|t l IH]; intros off H; [reflexivity|]. inversion H; subst.
+  rewrite !on_list_cons, xbytes_app, IH by assumption. f_equal. auto.
+Qed.
+
+Lemma evs_bytes codes bigend : forall t d off, xbytes (evs codes bigend d off t) = enc_tree codes bigend off t.
+Proof.
+  induction t as [tag flag items kids IH] using tree_ind'. intros d off.
+  rewrite evs_unfold, enc_tree_split. cbn [t_kids]. unfold kids_bytes.
+  change (xbytes (?x :: ?l)) with (x_bytes x ++ xbytes l). cbn [head_ev x_bytes]. f_equal.
+  destruct (has_children (Node tag flag items kids)); [|reflexivity].
+  rewrite xbytes_app. fold (evs_list codes bigend (d + 1) (kids_off codes off (Node tag flag items kids)) kids).
+  rewrite evs_list_bytes_of by exact IH. reflexivity.
+Qed.
+
+Lemma evs_list_bytes codes bigend d l off :
+  xbytes (evs_list codes bigend d off l) = on_list (enc_tree codes bigend) (tree_size codes) off l.
+Proof. apply evs_list_bytes_of. apply Forall_forall. intros t _ d' o. apply evs_bytes. Qed.
+
+(* the events report the entry sequence of the specification *)
+Lemma evs_list_dies_of codes bigend d : forall l off,
+  Forall (fun t => forall d o, map x_die (evs codes bigend d o t) = seq_tree codes d o t) l ->
+  map x_die (evs_list codes bigend d off l) = on_list (seq_tree codes d) (tree_size codes) off l.
+Proof.
+  unfold evs_list. induction l as [|t l IH]; intros off H; [reflexivity|]. inversion H; subst.
+  rewrite !on_list_cons, map_app, IH by assumption. f_equal. auto.
+Qed.
+
+Lemma seq_tree_unfold codes d off t :
+  seq_tree codes d off t =
+  root_die codes off d t ::
+  (if has_children t
+   then on_list (seq_tree codes (d + 1)) (tree_size codes) (kids_off codes off t) (t_kids t) ++
+        [null_at (off + tree_size codes t - 1) (d + 1)]
+   else []).
+Proof. destruct t. reflexivity. Qed.
+
+Lemma evs_dies codes bigend : forall t d off, map x_die (evs codes bigend d off t) = seq_tree codes d off t.
+Proof.
+  induction t as [tag flag items kids IH] using tree_ind'. intros d off.
+  rewrite evs_unfold, seq_tree_unfold. cbn [t_kids map head_ev x_die]. f_equal.
+  destruct (has_children (Node tag flag items kids)); [|reflexivity].
+  rewrite map_app. fold (evs_list codes bigend (d + 1) (kids_off codes off (Node tag flag items kids)) kids).
+  rewrite evs_list_dies_of by exact IH. reflexivity.
+Qed.
+
+Lemma evs_list_dies codes bigend d l off :
+  map x_die (evs_list codes bigend d off l) = on_list (seq_tree codes d) (tree_size codes) off l.
+Proof. apply evs_list_dies_of. apply Forall_forall. intros t _ d' o. apply evs_dies. Qed.
+
+(* offsets and depths of consecutive events *)
+Fixpoint chain (off : N) (d : Z) (l : list xev) : Prop :=
+  match l with
+  | [] => True
+  | x :: l' => d_offset (x_die x) = off /\ d_depth (x_die x) = d /\
+               chain (off + nlen (x_bytes x)) (x_post x) l'
+  end.
+Fixpoint end_depth (d : Z) (l : list xev) : Z :=
+  match l with [] => d | x :: l' => end_depth (x_post x) l' end.
+
+Lemma chain_app : forall l1 off d l2,
+  chain off d (l1 ++ l2) <-> chain off d l1 /\ chain (off + nlen (xbytes l1)) (end_depth d l1) l2.
+Proof.
+  induction l1 as [|x l1 IH]; intros off d l2.
+  - cbn [app chain end_depth xbytes map concat]. change (nlen (@nil byte)) with 0. rewrite N.add_0_r. tauto.
+  - cbn [app chain end_depth]. rewrite IH.
+    change (xbytes (x :: l1)) with (x_bytes x ++ xbytes l1). rewrite nlen_app, N.add_assoc. tauto.
+Qed.
+
+Lemma end_depth_app : forall l1 d l2, end_depth d (l1 ++ l2) = end_depth (end_depth d l1) l2.
+Proof. induction l1 as [|x l1 IH]; intros d l2; [reflexivity|]. cbn [app end_depth]. apply IH. Qed.
+
+Lemma evs_list_chain_of codes bigend d : forall l off,
+  Forall (fun t => forall d o, chain o d (evs codes bigend d o t) /\ end_depth d (evs codes bigend d o t) = d) l ->
+  chain off d (evs_list codes bigend d off l) /\ end_depth d (evs_list codes bigend d off l) = d.
+Proof.
+  unfold evs_list. induction l as [|t l IH]; intros off H; [split; reflexivity|]. inversion H as [|? ? Ht Hl]; subst.
+  rewrite on_list_cons. destruct (Ht d off) as [C1 E1]. destruct (IH (off + tree_size codes t) Hl) as [C2 E2].
+  split.
+  - apply chain_app. split; [exact C1|]. rewrite E1, evs_bytes, enc_tree_len. exact C2.
+  - rewrite end_depth_app, E1. exact E2.
+Qed.
+
+Lemma evs_chain codes bigend : forall t d off,
+  chain off d (evs codes bigend d off t) /\ end_depth d (evs codes bigend d off t) = d.
+Proof.
+  induction t as [tag flag items kids IH] using tree_ind'. intros d off.
+  set (t := Node tag flag items kids) in *.
+  rewrite evs_unfold. change (t_kids t) with kids.
+  cbn [chain end_depth head_ev x_die x_bytes x_post root_die d_offset d_depth].
+  unfold post_depth. destruct (has_children t) eqn:Hc.
+  - fold (evs_list codes bigend (d + 1) (kids_off codes off t) kids).
+    destruct (evs_list_chain_of codes bigend (d + 1) kids (kids_off codes off t) IH) as [C E].
+    pose proof (kids_off_ge codes off t) as Hk.
+    rewrite head_bytes_len. replace (off + (kids_off codes off t - off)) with (kids_off codes off t) by lia.
+    split.
+    + split; [reflexivity|]. split; [reflexivity|]. apply chain_app. split; [exact C|].
+      rewrite E. cbn [chain null_ev x_die null_at d_offset d_depth]. repeat split.
+      rewrite evs_list_bytes, enc_forest_list_len.
+      rewrite (tree_size_unfold codes t), Hc. unfold kids_off, forest_size. cbn [t_kids t]. lia.
+    + rewrite end_depth_app, E. cbn [end_depth null_ev x_post]. lia.
+  - cbn [chain end_depth]. auto.
+Qed.
+
+Lemma evs_list_chain codes bigend d l off :
+  chain off d (evs_list codes bigend d off l) /\ end_depth d (evs_list codes bigend d off l) = d.
+Proof. apply evs_list_chain_of. apply Forall_forall. intros t _ d' o. apply evs_chain. Qed.
+
+(* every event of a well-formed forest is readable *)
+Definition placed_ok (e : enc) (tbl : abbrevs) (codes : coding) (p : N * tree) : Prop :=
+  covered tbl codes (snd p) /\ node_ok codes e (snd p) /\ node_fits codes p.
+
+Lemma placed_unfold codes off t :
+  placed codes off t = (off, t) :: on_list (placed codes) (tree_size codes) (kids_off codes off t) (t_kids t).
+Proof. destruct t. reflexivity. Qed.
+
+Lemma evs_list_ok_of dbg e tbl codes d : forall l off,
+  Forall (fun t => forall d o, Forall (placed_ok e tbl codes) (placed codes o t) ->
+                               Forall (ev_ok dbg e tbl) (evs codes (be e) d o t)) l ->
+  Forall (placed_ok e tbl codes) (on_list (placed codes) (tree_size codes) off l) ->
+  Forall (ev_ok dbg e tbl) (evs_list codes (be e) d off l).
+Proof.
+  unfold evs_list. induction l as [|t l IH]; intros off H Hp; [constructor|]. inversion H; subst.
+  rewrite on_list_cons in *. apply Forall_app in Hp. destruct Hp as [Hp1 Hp2].
+  apply Forall_app. split; auto.
+Qed.
+
+Lemma evs_ok dbg e tbl codes : addr_size_ok e -> forall t d off,
+  Forall (placed_ok e tbl codes) (placed codes off t) -> Forall (ev_ok dbg e tbl) (evs codes (be e) d off t).
+Proof.
+  intros He. induction t as [tag flag items kids IH] using tree_ind'. intros d off Hp.
+  set (t := Node tag flag items kids) in *.
+  rewrite placed_unfold in Hp. inversion Hp as [|? ? (Hc & Hok & Hfit) Hk]; subst. cbn [snd t_kids t] in *.
+  rewrite evs_unfold. change (t_kids t) with kids. constructor; [apply head_ev_ok; assumption|].
+  destruct (has_children t); [|constructor].
+  apply Forall_app. split; [|constructor; [apply null_ev_ok|constructor]].
+  apply (evs_list_ok_of dbg e tbl codes (d + 1) kids); assumption.
+Qed.
+
+Lemma evs_list_ok dbg e tbl codes d l off : addr_size_ok e ->
+  Forall (placed_ok e tbl codes) (on_list (placed codes) (tree_size codes) off l) ->
+  Forall (ev_ok dbg e tbl) (evs_list codes (be e) d off l).
+Proof.
+  intros He. apply evs_list_ok_of. apply Forall_forall. intros t _ d' o. apply evs_ok. exact He.
+Qed.
+
+(* padding *)
+Fixpoint pad_evs (off : N) (d : Z) (n : nat) : list xev :=
+  match n with O => [] | S k => null_ev off d :: pad_evs (off + 1) (d - 1) k end.
+
+Lemma pad_evs_bytes : forall n off d, xbytes (pad_evs off d n) = repeat x00 n.
+Proof. induction n as [|n IH]; intros off d; [reflexivity|]. cbn [pad_evs repeat]. change (xbytes (?x :: ?l)) with (x_bytes x ++ xbytes l). rewrite IH. reflexivity. Qed.
+Lemma pad_evs_dies : forall n off d, map x_die (pad_evs off d n) = pad_nulls off d n.
+Proof. induction n as [|n IH]; intros off d; [reflexivity|]. cbn [pad_evs pad_nulls map]. rewrite IH. reflexivity. Qed.
+Lemma pad_evs_chain : forall n off d, chain off d (pad_evs off d n).
+Proof.
+  induction n as [|n IH]; intros off d; [exact I|]. cbn [pad_evs chain null_ev x_die x_bytes x_post null_at d_offset d_depth].
+  repeat split. change (nlen [x00]) with 1. apply IH.
+Qed.
+Lemma pad_evs_ok dbg e tbl : forall n off d, Forall (ev_ok dbg e tbl) (pad_evs off d n).
+Proof. induction n as [|n IH]; intros off d; constructor; [apply null_ev_ok|apply IH]. Qed.
+
+(* ------------------------------------------------------------------ *)
+(** * Theorem 3: the raw loop over a chain of readable events *)
+
+Lemma depth_ok_step d x rest :
+  (exists b r, x_bytes x = b :: r) -> (d - 1 <= x_post x <= d + 1)%Z ->
+  depth_ok d (x_bytes x ++ rest) -> depth_ok (x_post x) rest.
+Proof.
+  intros (b & r & E) Hp [D1 D2]. rewrite E in D1, D2. cbn [app] in D1, D2. rewrite nlen_cons, nlen_app in D1, D2.
+  split; lia.
+Qed.
+
+Lemma raw_loop_chain dbg e tbl : forall l off d rest E fuel,
+  Forall (ev_ok dbg e tbl) l -> chain off d l ->
+  E = off + nlen (xbytes l) + nlen rest -> E < two64 -> depth_ok d (xbytes l ++ rest) ->
+  raw_loop (length l + fuel) dbg e tbl (mkRaw (xbytes l ++ rest) E d) =
+  (let* (l', err) := raw_loop fuel dbg e tbl (mkRaw rest E (end_depth d l)) in Ok (map x_die l ++ l', err)) /\
+  depth_ok (end_depth d l) rest.
+Proof.
+  induction l as [|x l IH]; intros off d rest E fuel Hok Hch HE HE64 Hd.
+  - cbn [length Nat.add xbytes map concat app end_depth]. split; [|exact Hd].
+    destruct (raw_loop fuel dbg e tbl (mkRaw rest E d)) as [[l' err]| | |]; reflexivity.
+  - inversion Hok as [|? ? Hx Hl]; subst. destruct Hch as (Ho & Hdd & Hch).
+    destruct Hx as (Hne & Hpost & Hread).
+    change (xbytes (x :: l)) with (x_bytes x ++ xbytes l) in *. rewrite <- app_assoc in *.
+    cbn [length Nat.add raw_loop].
+    destruct Hne as (b & r & Eb).
+    replace (raw_is_empty (mkRaw (x_bytes x ++ xbytes l ++ rest) (off + nlen (x_bytes x ++ xbytes l) + nlen rest) d))
+      with false by (unfold raw_is_empty; cbn [r_in]; rewrite Eb; reflexivity).
+    rewrite <- Hdd. rewrite (Hread (xbytes l ++ rest)); [| rewrite Ho, !nlen_app; lia | assumption | rewrite Hdd; exact Hd].
+    rewrite nlen_app in HE64 |- *.
+    assert (Hd' : depth_ok (x_post x) (xbytes l ++ rest)).
+    { apply (depth_ok_step d x); [eauto|lia|exact Hd]. }
+    destruct (IH (off + nlen (x_bytes x)) (x_post x) rest (off + (nlen (x_bytes x) + nlen (xbytes l)) + nlen rest) fuel)
+      as [IH1 IH2]; try assumption; [lia|].
+    rewrite IH1. cbn [end_depth]. split; [|exact IH2].
+    destruct (raw_loop fuel dbg e tbl (mkRaw rest (off + (nlen (x_bytes x) + nlen (xbytes l)) + nlen rest) (end_depth (x_post x) l)))
+      as [[l' err]| | |]; reflexivity.
+Qed.
